@@ -1,4 +1,5 @@
 import Tibc.Lemmas.Log
+import Tibc.Lemmas.HostKeys
 /-
   C02 — Exactly-once delivery per (source, destination, sequence).
   PROPERTY THEOREMS ONLY.
@@ -110,5 +111,24 @@ theorem recv_accepts_live_packet (s : Core) (p : Packet) (h : Nat) (cl : Client)
   rcases recvPacket_cases H s p (.honest (recvProver s p) h (.commit p.key)) h with ⟨_, e⟩ | ⟨hno, _⟩
   · exact e
   · exact absurd ⟨hv, hnr, cl, sn, hcl, hact, hh, hsn, rfl, hcommitted⟩ hno
+
+/-- **Store keys of receipts**: one receipt slot per `(source, destination, sequence)` — the
+    receipt of one packet can never be mistaken for (or overwritten by) that of another, nor for a
+    commitment or an acknowledgement (chain names contain no `/`). -/
+theorem receipt_key_injective {src src' dst dst' : Str} {n n' : Nat}
+    (hs : '/' ∉ src) (hd : '/' ∉ dst) (hs' : '/' ∉ src') (hd' : '/' ∉ dst')
+    (h : Host.packetReceiptPath src dst n = Host.packetReceiptPath src' dst' n') :
+    src = src' ∧ dst = dst' ∧ n = n' :=
+  (Host.seqPath_injective (by decide) hs hd (by decide) hs' hd' h).2
+
+theorem receipt_key_family_disjoint {src src' dst dst' : Str} {n n' : Nat}
+    (hs : '/' ∉ src) (hd : '/' ∉ dst) (hs' : '/' ∉ src') (hd' : '/' ∉ dst') :
+    Host.packetReceiptPath src dst n ≠ Host.packetCommitmentPath src' dst' n' ∧
+    Host.packetReceiptPath src dst n ≠ Host.packetAcknowledgementPath src' dst' n' ∧
+    Host.packetReceiptPath src dst n ≠ Host.cleanPacketCommitmentPath src' dst' := by
+  refine ⟨?_, ?_, ?_⟩
+  · intro h; have := (Host.seqPath_injective (by decide) hs hd (by decide) hs' hd' h).1; revert this; decide
+  · intro h; have := (Host.seqPath_injective (by decide) hs hd (by decide) hs' hd' h).1; revert this; decide
+  · exact Host.seqPath_ne_pairPath (by decide) hs hd (by decide) hs' hd'
 
 end Tibc.C02
